@@ -581,6 +581,13 @@ impl<'a> Model<'a> {
             // C05/C07/C08 say nothing about the wall clock or about which binding a colliding
             // name resolves to (C09 / C12): no rule here, the case is run but not compared
             E::Now(_) => Err(Silent("wall clock read (C09's ground)")),
+            // a conversion whose argument fails fails the same way (absent stays absent); what
+            // it converts a value to is C14's ground; under a caller's function of that name
+            // it is C12's
+            E::NCall(n, args) if args.len() == 1 && !self.case.named.contains_key(n) && type_value(n).is_some() => match self.definite(&args[0])? {
+                MO::Fail(cs) if !cs.is_empty() => Ok(MO::Fail(cs)),
+                _ => Err(Silent("conversion of a value (C14's ground)")),
+            },
             E::NCall(..) => Err(Silent("call by a colliding name (C12's ground)")),
             // a method of a receiver that fails fails the same way (so an absent receiver
             // stays absent); on a receiver that evaluates, what the built-in computes is
